@@ -75,3 +75,10 @@ theorem sector_probs_sum_one (omega : Mask → ℝ) (n : Nat)
   C04.orderProb_sum_one omega n (fun h hh => (J_pos omega n hpos _ h hh rfl).ne') g hg
 
 end Momtrop.C05
+
+namespace Momtrop.C05
+/-- non-vacuity of `sector_probs_sum_one`: `ω ≡ 1` satisfies its hypothesis for every number of edges -/
+example (n : Nat) (g : Mask) (hg : g < 2 ^ n) :
+    ((C04.orderingsAux (card n g) (Mask.edges n g)).map (C04.orderProb (fun _ => (1 : ℝ)) n g)).sum = 1 :=
+  sector_probs_sum_one (fun _ => 1) n (fun _ _ _ => by norm_num) g hg
+end Momtrop.C05
